@@ -290,3 +290,15 @@ PROPS["C01"] = {
     "units": {"world": {"pkg": "./server", "run": "^TestVerifC01World$", "tiers": {"quick": T(1500, 8, timeout=900), "thorough": T(40000, 12, timeout=3400)},
                         "floors": {"C01.world": {"tamper-fired": 0.1, "tamper-consumed-on-secure-name": 0.05, "secure": 0.3, "denial": 0.2, "served-from-cache": 0.1, "alias-chain": 0.004, "wildcard": 0.008, "honest-world": 0.1, "no-anchor": 0.02}}}},
 }
+
+PROPS["C07"] = {
+    "level": "exploration",
+    "technique": "adversarial-authority property testing on the resolver-world harness: the genuine authority of one zone decorates every response with generated out-of-bailiwick material; later victim questions, the packets each authority receives and every address dialled are judged against the honest namespace",
+    "level_text": ("The namespace has a signed root and TLD, the attacker's zone evil.test. with a real sub-zone, a look-alike provider zone xevil.test., and a victim zone (unsigned in most cases so that only the bailiwick rules protect it; signed in the rest; delegated with glue or gluelessly to a host in the provider zone). "
+                   "Every response of the attacker's servers is decorated by one of 18 attacks drawn per case: foreign records in answer / additional, NS for the victim or the parent in authority or answer, CNAME / DNAME chains continued in-message with out-of-zone targets, upward / sideways / self / mixed-owner / CHAOS-class referrals, glue for an out-of-zone host, for a host whose name merely ends in the zone's characters, for loopback addresses, a foreign SOA on negatives, wrong-ID or wrong-question datagrams before the real one, and the right ID with somebody else's question and an error rcode instead of it. "
+                   "Histories of 3-9 client questions (attacker names, victim names, CD on/off, wire-born / decoded, sleeps) always end with the targeted victim name asked with CD=0 and CD=1. Oracle: no reply's answer or authority section carries a marker address for a name outside the attacker's zone or, in the answer section, any record owned outside it that its own zone does not publish; victim questions get the victim zone's own rcode and RRset; the attacker's addresses are never asked a name outside evil.test.; no loopback or forged-only address is ever dialled. Exploration."),
+    "level_note": "Trusted: internal/vfworld as the honest namespace. 'Relayed inside the answer' is read as the answer section: sdns passes an authority's additional section and a foreign SOA in the authority section of a negative answer through to the client; neither is cached under its own name or used for another question, which the later victim questions check. Local-interface glue is exercised with loopback only. DoT/DoH upstreams do not exist in sdns's iterative path.",
+    "rule": ("evaluations = histories. Non-trivial = at least one decorated response was consumed and a victim question was asked afterwards; distinct = hash(attacks, victim, options, step shapes)."),
+    "units": {"bailiwick": {"pkg": "./server", "run": "^TestVerifC07Bailiwick$", "tiers": {"quick": T(1200, 8, timeout=900), "thorough": T(40000, 12, timeout=3400)},
+                            "floors": {"C07.bailiwick": {"attacked-responses": 0.5, "victim-question-after-attack": 0.5, "victim-glueless": 0.1, "attack:wrong-question-error": 0.04, "attack:glue-lookalike": 0.02, "attack:cname-in-message": 0.04}}}},
+}
